@@ -69,6 +69,7 @@ int access_region_of(const void *addr);    // index of the registered region hol
 extern uint64_t g_access_value;            // value being stored, set by the atomic front end before access_yield
 
 uint64_t steps();
+int64_t task_blocked_ns();   // virtual time the calling task has spent waiting in blocking calls so far
 uint64_t handoffs();
 extern void (*g_fault_counter)(int kind);   // called whenever a fault fires
 
